@@ -16,6 +16,7 @@ iface text.Reader.Source
 iface parser.Context.ComputeIfAbsent
   modifies ctxState
 iface parser.Context.Set
+  nilable arg1
   modifies ctxState
 iface parser.Context.Get
   modifies nothing
